@@ -31,6 +31,7 @@ RULE = (
     "<=3 families, coherent costs, solver ext_spfs or superdtl: cost == min over all refinement pairs of the oracle optimum; canonical(ALL) keyed "
     "by (object clades, species clades, mapping by clade, labelling by clade) has no repeats and == union of the optimal sets of the optimal "
     "refinement pairs; V-TREES on every returned solution.  Non-trivial: some node has >=3 children; distinct by SHA-1 of the case."
+    '  Also (layer A): the enumerated trees are named/coloured in four patterns (coloured unnamed nodes included) and a twin with the same shape and names but other colours is resolved right after; (layer B): colours on arbitrary nodes, some ancestor names removed, prescribed root orders for ext_spfs (possibly naming an extra family), a fifth of the cases on the region boundary with free losses; the single solution of policy ANY must be optimal over all refinements and a member of the ALL set.'
 )
 ASSUMPTIONS = ["coherent costs in layer B", "solutions compared by clades", "unordered solvers compared with the canonical-labelling set when it attains the all-labellings optimum"]
 BUDGET = {"quick": {"random": 600}, "thorough": {"random": 6000}}
